@@ -24,7 +24,8 @@ from vf.symx import Engine, SBool, SReal, srange
 PID = "C15"
 PF = "dclab.polygon_filter"
 PYX = "dclab/external/skimage/_shared/geometry.pyx"
-FUNCTIONS = [(PF, "PolygonFilter.filter"), (PF, "PolygonFilter.points"),
+FUNCTIONS = [("dclab.external.skimage.pnpoly", "points_in_poly"),
+             (PF, "PolygonFilter.filter"), (PF, "PolygonFilter.points"),
              (PF, "PolygonFilter.save"), (PF, "PolygonFilter._load")]
 FILES = [PYX, "dclab/external/skimage/_pnpoly.pyx"]
 BOUNDS = {
@@ -144,7 +145,11 @@ def points_in_poly_model(kns):
 
 def run_filter(eng, n, npts, inverted):
     kns = kernel()
-    ns = shadow(PF, np=SymNP(), points_in_poly=points_in_poly_model(kns))
+    # the REAL python wrapper dclab.external.skimage.pnpoly.points_in_poly
+    # on top of the model of the compiled _points_in_poly
+    pn = shadow("dclab.external.skimage.pnpoly", np=SymNP(),
+                _points_in_poly=points_in_poly_model(kns))
+    ns = shadow(PF, np=SymNP(), points_in_poly=pn["points_in_poly"])
     xs, ys, pts = sym_polygon(eng, n, npts)
     pf = make_filter(ns, xs, ys, inverted)
     datax = SArr([p[0] for p in pts], float)
